@@ -129,6 +129,36 @@ CHECKS = {
              "drivers (operations take microseconds)",
         technique="TLA+ model checking (TLC) of the scaled mechanism + slot-exact trace validation at the real constant",
         engine="vstorage"),
+    "C24": dict(
+        level="model_checking",
+        text='A real agdb_server process (built from /repo) is driven with random multi-user request sequences over the whole documented endpoint table (user and /admin/ API: sessions, users, database add/delete/remove/copy/rename/backup/restore/rollback/clear/convert/optimize/exec/exec_mut/audit, database users) with valid, logged-out, deleted-user and bogus tokens; after every request the complete visible state (users, databases, roles, content, audit, files) is observed through a reserved admin session. ServerTrace.tla decides every request: 2xx only if the token is a live session AND Permitted (the documented table, literally); a rejected request leaves the observed state unchanged; a performed request changes only what its operation may change and role / user / session changes have their documented effect (revocation is immediate because the next request is judged against the updated state).',
+        design='3.11, 4 C24',
+        note="request sequences are sampled (seeded), one client at a time, 2 users + the server admin; sessions are tracked from "
+             "login/logout because they are not observable; token expiry is not exercised (configuration minimum 60 s); single "
+             "node server (every action still goes through the cluster log of one)",
+        technique="TLA+ trace validation (TLC) of request/observation traces of a real agdb_server process against the ServerTrace "
+                  "specification",
+        engine="vserver"),
+    "C25": dict(
+        level="model_checking",
+        text='As C24 with batch-heavy traffic: exec / exec_mut batches mixing reads, inserts, alias inserts, failing reads, failing writes and :N result references (valid and dangling). ServerTrace!BatchEval evaluates each batch over the content model (node count, edge count, aliases): a 2xx batch must have applied every query, any other status must leave content AND audit unchanged, and the audit log must grow by exactly the mutating queries of applied batches, in order, attributed to the caller (observed through the audit endpoint after every request); backup / restore / rollback / clear in between.',
+        design='3.11, 4 C25',
+        note="request sequences are sampled (seeded), one client at a time, 2 users + the server admin; sessions are tracked from "
+             "login/logout because they are not observable; token expiry is not exercised (configuration minimum 60 s); single "
+             "node server (every action still goes through the cluster log of one)",
+        technique="TLA+ trace validation (TLC) of request/observation traces of a real agdb_server process against the ServerTrace "
+                  "specification",
+        engine="vserver"),
+    "C26": dict(
+        level="model_checking",
+        text="As C24 with database names drawn from a path-like alphabet (hidden names, 'audit', 'backups', 'audit/a.log', 'backups/a.bak', '../a', '../bob/a', 'a/../b', './a', '..') for add / copy / rename and the follow-up operations; the observation lists every file under and around the data directory with its owner directory, and for every database the normalised paths the server's name-to-path mapping assigns. ServerTrace.tla requires: every file lies in an existing user's directory, files that appear or disappear across a request lie in the directory of the request's owner (or target owner), every database's paths lie in its owner's directory, and no path belongs to two databases.",
+        design='3.11, 4 C26',
+        note="request sequences are sampled (seeded), one client at a time, 2 users + the server admin; sessions are tracked from "
+             "login/logout because they are not observable; token expiry is not exercised (configuration minimum 60 s); single "
+             "node server (every action still goes through the cluster log of one); path normalisation and the owner-directory projection are computed by the driver (TLC has no string operations)",
+        technique="TLA+ trace validation (TLC) of request/observation traces of a real agdb_server process against the ServerTrace "
+                  "specification",
+        engine="vserver"),
     "C27": dict(
         level="model_checking",
         text='AgdbRaft.tla (raft.rs transcribed handler by handler in RaftCore.tla; lossy, duplicating network; free timers) is model-checked: ElectionSafety (history of <<node, term>> leaders) holds exhaustively for the election configuration. The vraft simulator runs seeded random schedules (delivery, loss, duplication, arbitrary timer expiries, 3 and 5 nodes) on the REAL raft.rs; RaftTrace.tla decides every step (same process() branch for the logged time, same response, same new requests, same complete node state) and evaluates ElectionSafety in every state. The TLC counterexample of the unrepaired protocol (two votes in one term, D12) is replayed on the real code on every run. On model drift the executions are decided at property level (RaftTraceAbs) with a tripled budget.',
@@ -206,6 +236,10 @@ ENGINES = [
 ENGINES.append({"name": "vraft", "path": "harness/vraft", "serves_properties": ["C27", "C28", "C29", "C30"],
                 "kind_free_text": "deterministic simulator around the real agdb_server/src/raft.rs (virtual clock substituted at build time, "
                                   "in-memory log store mirroring ClusterStorage); TLC for RaftCore/AgdbRaft/AgdbRaftHealthy/RaftTrace"})
+
+ENGINES.append({"name": "vserver", "path": "lib/serverdrv.py", "serves_properties": ["C24", "C25", "C26"],
+                "kind_free_text": "Python driver around a real agdb_server process (binary built from /repo with the hook guard on); "
+                                  "TLC for ServerTrace"})
 
 NOT_APPLICABLE = [
     {"property_id": "C07", "reason": "robustness/memory-safety over arbitrary file bytes (panic, abort, allocation size): no state machine for a TLA+ specification to constrain, TLC cannot observe panics or allocations"},
